@@ -99,6 +99,10 @@ func (input *Input) InterpolateParameters(interpolator ParametersInterpolator) e
 }
 
 func (input *Input) loader() (schemaLoader, error) {
+	if err := cogyaml.OneMemberOnly("inputs", *input); err != nil {
+		return nil, err
+	}
+
 	if input.JSONSchema != nil {
 		return input.JSONSchema, nil
 	}
